@@ -181,6 +181,17 @@ def body_standardize(case, rec):
     b = std.fit(v)
     if b != a:
         raise Violation("standardize-invariant", f"fit({x}) = {a} but fit({v}) = {b}")
+    # the documented option that keeps stereochemistry: still idempotent and independent of the writing
+    s1 = std.fit(x, ignore_stereo=False)
+    if not isinstance(s1, str) or cg.rxn_key(s1) != cg.rxn_key(x):
+        raise Violation("standardize-same-reaction", f"fit({x}, ignore_stereo=False) = {s1!r}")
+    if std.fit(s1, ignore_stereo=False) != s1:
+        raise Violation("standardize-idempotent", f"ignore_stereo=False: fit({x}) = {s1} is not a fixed point")
+    s2 = std.fit(v, ignore_stereo=False)
+    if s2 != s1:
+        raise Violation("standardize-invariant", f"ignore_stereo=False: fit({x}) = {s1} but fit({v}) = {s2}")
+    if "@" in s1:
+        rec.label("stereo-kept")
 
 
 def strat_standardize(tier):
